@@ -116,18 +116,41 @@ Print Assumptions C03_trajectory_well_formed.
 (* ---- faults: the driving force calculation returns no result -------------------------------------------------- *)
 (* the step is completed, all nucleation terms of the phase keep their last valid values, the critical radius and the
    nucleation rate stay non-negative *)
-Theorem C03_driving_force_fault_fallback Rmin minDens dtprev prev o :
-  exists s', nucStep Rops true Rmin minDens dtprev prev o = Ok s' /\
+Theorem C03_driving_force_fault_fallback zeroed Rmin minDens dtprev prev o :
+  exists s', nucStep Rops true zeroed Rmin minDens dtprev prev o = Ok s' /\
     (o_df Rops o = None -> s' = prev) /\
     (0 <= Rmin -> 0 <= n_Rcrit Rops prev -> 0 <= n_Rcrit Rops s') /\
     (0 <= n_rate Rops prev -> 0 <= o_rate Rops o -> 0 <= n_rate Rops s').
-Proof. exact (nucStep_repaired Rmin minDens dtprev prev o). Qed.
+Proof. exact (nucStep_repaired zeroed Rmin minDens dtprev prev o). Qed.
 Print Assumptions C03_driving_force_fault_fallback.
 
-Theorem C03_driving_force_fault_unrepaired_refuted : exists Rmin minDens dtprev prev o,
-  nucStep Rops false Rmin minDens dtprev prev o = Err ErrType.
+Theorem C03_driving_force_fault_unrepaired_refuted : exists zeroed Rmin minDens dtprev prev o,
+  nucStep Rops false zeroed Rmin minDens dtprev prev o = Err ErrType.
 Proof. exact nucStep_unrepaired_refuted. Qed.
 Print Assumptions C03_driving_force_fault_unrepaired_refuted.
+
+(* a driving force that was calculated and is negative: no barrier, no impingement, no nucleation rate, no nucleation
+   radius are recorded (or used by the next derivative), whatever the previous step recorded *)
+Theorem C03_negative_driving_force_no_nucleation rep Rmin minDens dtprev prev o dG : o_df Rops o = Some dG -> dG < 0 ->
+  nucStep Rops rep true Rmin minDens dtprev prev o = Ok (mkN Rops dG 0 0 0 0 0).
+Proof. exact (nucStep_negative_zero rep Rmin minDens dtprev prev o dG). Qed.
+Print Assumptions C03_negative_driving_force_no_nucleation.
+
+(* ... and the same for a zero impingement rate (in particular a driving force of exactly 0, for which the barrier and
+   hence the impingement rate are 0) *)
+Theorem C03_no_impingement_no_nucleation rep Rmin minDens dtprev prev o dG : o_df Rops o = Some dG -> o_beta Rops o = 0 ->
+  exists s', nucStep Rops rep true Rmin minDens dtprev prev o = Ok s' /\
+             n_rate Rops s' = 0 /\ n_Rnuc Rops s' = 0 /\ n_beta Rops s' = 0.
+Proof. exact (nucStep_no_impingement_zero rep Rmin minDens dtprev prev o dG). Qed.
+Print Assumptions C03_no_impingement_no_nucleation.
+
+(* before kawin commit "fix: no nucleation rate is recorded or used for a phase without driving force or impingement" the
+   previous positive rate and radius stayed in force *)
+Theorem C03_stale_nucleation_rate_refuted : exists rep Rmin minDens dtprev prev o dG s',
+  o_df Rops o = Some dG /\ dG < 0 /\ nucStep Rops rep false Rmin minDens dtprev prev o = Ok s' /\
+  0 < n_rate Rops s' /\ 0 < n_Rnuc Rops s'.
+Proof. exact nucStep_stale_refuted. Qed.
+Print Assumptions C03_stale_nucleation_rate_refuted.
 
 (* ---- faults: the growth calculation returns no result ---------------------------------------------------------- *)
 (* never an error; the growth array always has one entry per class boundary; with a non-negative driving force the
